@@ -45,7 +45,7 @@ def conservation_laws(sp):
     return laws
 
 
-def _simulate(sim, sp, tp, seed, vol):
+def _simulate(sim, sp, tp, seed, vol, used_before=False):
     from bioscrape.simulator import (ModelCSimInterface, SafeModelCSimInterface, SSASimulator, VolumeSSASimulator,
                                      DelaySSASimulator, ArrayDelayQueue, py_simulate_model)
     from bioscrape.types import Volume
@@ -53,11 +53,22 @@ def _simulate(sim, sp, tp, seed, vol):
     with specmod.quiet():
         M = specmod.to_model(sp)
         safe = sim.startswith("safe")
-        I = SafeModelCSimInterface(M) if safe else ModelCSimInterface(M)
     dt = float(tp[1] - tp[0])
-    I.py_set_dt(dt)
     order = [M.get_species2index()[s] for s in sp["species"]]
-    py_seed_random(seed)
+    for round_ in ((1, 0) if used_before else (0,)):
+        # (used_before: the same model object has been simulated before - same simulator kind, its own interface, another
+        # seed; that first result is discarded)
+        with specmod.quiet():
+            I = SafeModelCSimInterface(M) if safe else ModelCSimInterface(M)
+        I.py_set_dt(dt)
+        py_seed_random(seed + round_)
+        out = _run_once(sim, sp, M, I, tp, dt, vol)
+    return out if sim == "model_api_safe" else np.asarray(out, dtype=float)[:, order]
+
+
+def _run_once(sim, sp, M, I, tp, dt, vol):
+    from bioscrape.simulator import (SSASimulator, VolumeSSASimulator, DelaySSASimulator, ArrayDelayQueue, py_simulate_model)
+    from bioscrape.types import Volume
     with specmod.quiet():
         if sim in ("ssa", "safe_ssa"):
             r = SSASimulator().py_simulate(I, tp).py_get_result()
@@ -73,7 +84,7 @@ def _simulate(sim, sp, tp, seed, vol):
             return df[sp["species"]].to_numpy(dtype=float)
         else:
             raise ValueError(sim)
-    return np.asarray(r, dtype=float)[:, order]
+    return r
 
 
 def check(case):
@@ -87,7 +98,9 @@ def check(case):
     is_safe = sim.startswith("safe") or sim == "model_api_safe"
     mass_action_only = all(rx["type"] == "massaction" for rx in base["reactions"])
     has_delay_reactants = any((rx.get("delay") or {}).get("r") for rx in base["reactions"])
-    x = _simulate(sim, sp, tp, case["seed"], vol)
+    x = _simulate(sim, sp, tp, case["seed"], vol, used_before=bool(case.get("model_used_before")))
+    if case.get("model_used_before"):
+        res.label("model_simulated_before")
     names = sp["species"]
     col = {s: i for i, s in enumerate(names)}
     if x.shape != (len(tp), len(names)):
@@ -267,7 +280,7 @@ def cases(draw):
     k0 = draw(st.sampled_from([0, 0, 0, 3, 8]))      # the reported grid may start after the simulation start (time 0)
     return {"kind": "path", "spec": sp, "sim": sim, "grid": [(k0 + i) * dt for i in range(n)],
             "instrumented": draw(st.integers(0, 4)) > 0, "vol": draw(st.sampled_from([1.0, 0.5, 2.0, 3.7])),
-            "seed": draw(st.integers(1, 2 ** 40))}
+            "seed": draw(st.integers(1, 2 ** 40)), "model_used_before": draw(st.integers(0, 3)) == 0}
 
 
 def search(ctx):
